@@ -190,6 +190,10 @@ def run(ctx):
                 ctx.fail("C07-R3", g.path, "clone divergence", "the two branches of get() differ: %s ; pulses %s vs %s" % (diff, pulses["lpf"], pulses["no-lpf"]), g.loc())
             # both select noise on pitch == 0
             wn = cm.local_calls(g, p, exact=EX + "white_noise")
+            if not wn and p.body(EX + "white_noise") is None:
+                # the helper is gone (moved into a noise-source type and inlined here): the noise
+                # path is where the Gaussian generator is drawn from
+                wn = cm.local_calls(g, p, exact="vocoder::excitation::Random::nrandom")
             unv = cm.local_calls(g, p, exact=EX + "unvoiced_frame")
             sel = {"lpf": False, "no-lpf": False}
             for bb, t in unv:
